@@ -72,10 +72,22 @@ func NewGen(w *World, seed uint64, profile string) *Gen {
 		if g.R.Chance(30) {
 			sz += uint64(g.R.Intn(3)) - 1
 		}
+		if profile == "reward" {
+			sz = 10_000_000 // the reward genesis places the APY relative to 10 coins per node
+		}
 		g.setup = append(g.setup, Op{K: "addv", Creator: i, Size: sz})
 	}
 	for _, o := range g.Owners {
 		g.setup = append(g.setup, Op{K: "payaddr", Creator: o, Did: o + 1})
+	}
+	if profile == "lifecycle" {
+		g.Malformed = 5
+		// one provider that cannot afford collateral top-ups: it locks nearly all its coins in a delegation
+		// providers that can afford a shard's first pledge but not every renewal top-up: they lock
+		// nearly all their coins in a delegation
+		for _, poor := range g.Nodes[len(g.Nodes)-2:] {
+			g.setup = append(g.setup, Op{K: "delegate", Creator: poor, Val: 1, Amount: 999_999_999_000 - int64(500+g.R.Intn(4000))})
+		}
 	}
 	if profile == "staking" {
 		g.Malformed = 10
@@ -139,14 +151,22 @@ func (g *Gen) nextScheduled() int64 {
 func (g *Gen) advance() Op {
 	h := g.W.C.Height
 	var to int64
+	if g.Profile == "reward" {
+		// rewards are minted every block: consecutive heights only
+		return Op{K: "advance", To: h + 1, Seed: g.seedStr()}
+	}
 	ns := g.nextScheduled()
+	jump := 45
+	if g.Profile == "lifecycle" {
+		jump = 85
+	}
 	switch {
-	case ns != 0 && ns < 1<<40 && g.R.Chance(45):
+	case ns != 0 && ns < 1<<40 && g.R.Chance(jump):
 		to = ns - int64(g.R.Intn(2))
 		if to <= h {
 			to = ns
 		}
-	case g.R.Chance(10):
+	case g.R.Chance(10) && g.Profile != "lifecycle":
 		to = h + 1000 + int64(g.R.Intn(3000))
 	default:
 		to = h + 1 + int64(g.R.Intn(40))
@@ -271,6 +291,12 @@ func (g *Gen) stakingTx() Op {
 		return Op{K: "remv", Creator: n, Size: uint64(1_000_000 * (1 + r.Intn(12)))}
 	case 9:
 		return Op{K: "restart"}
+	case 10:
+		// a new order whose replica count sits at the boundary of the normal-node population
+		owner := g.Owners[r.Intn(len(g.Owners))]
+		d := g.newDataId()
+		return Op{K: "store", Creator: n, Provider: n + 1, Signer: owner + 1, Owner: owner + 1, Duration: 3600, Replica: int32(len(g.Nodes) - 2 + r.Intn(3)),
+			Timeout: 100, Alias: fmt.Sprintf("alias%d", g.dataSeq), DataId: d, CommitId: d, Size: uint64(1 + r.Intn(1000)), Operation: 1}
 	default:
 		return Op{K: "claim", Creator: n}
 	}
@@ -283,9 +309,120 @@ func (r *Rng) Int63n(n int64) int64 {
 	return int64(r.U64() % uint64(n))
 }
 
+func (g *Gen) didTx() Op {
+	r := g.R
+	sid := 1 + r.Intn(3)
+	// accounts already bound to this sid (by the accountDid naming convention of the harness)
+	ctx := g.W.C.Ctx()
+	k := g.W.C.App.DidKeeper
+	did := g.W.SidDid(sid, 1)
+	bound := []int{}
+	if al, found := k.GetAccountList(ctx, did); found {
+		for _, ad := range al.AccountDids {
+			var a int
+			if _, err := fmt.Sscanf(ad, "did:key:acct%d-of-", &a); err == nil {
+				bound = append(bound, a)
+			}
+		}
+	}
+	creator := r.Intn(len(g.W.C.Accounts))
+	if len(bound) > 0 && r.Chance(75) {
+		creator = bound[r.Intn(len(bound))] - 1
+	}
+	switch r.Intn(10) {
+	case 0, 1, 2, 3:
+		op := Op{K: "binding", Creator: creator, Acct: 1 + r.Intn(len(g.W.C.Accounts)), Sid: sid}
+		if len(bound) == 0 {
+			op.Creator = op.Acct - 1
+		}
+		if r.Chance(25) {
+			switch r.Intn(6) {
+			case 0:
+				op.Tamper = "sig"
+			case 1:
+				op.Tamper = "otherdid"
+			case 2:
+				op.Tamper = "keys"
+			case 3:
+				op.Tamper = "root"
+			case 4:
+				op.TsOffset = 895 + int64(r.Intn(12))
+			case 5:
+				op.AccountId = "eip155:1:0x" + fmt.Sprintf("%040x", r.U64())
+			}
+		}
+		return op
+	case 4, 5:
+		op := Op{K: "payaddr", Creator: creator, Sid: sid, Acct: 1 + r.Intn(len(g.W.C.Accounts))}
+		if len(bound) > 0 && r.Chance(70) {
+			op.Acct = bound[r.Intn(len(bound))]
+		}
+		return op
+	case 6, 7:
+		if len(bound) < 2 {
+			return Op{K: "binding", Creator: creator, Acct: 1 + r.Intn(len(g.W.C.Accounts)), Sid: sid}
+		}
+		// split the bound accounts into remove / update
+		rem, upd := []int{}, []int{}
+		for _, a := range bound {
+			if r.Chance(40) {
+				rem = append(rem, a)
+			} else {
+				upd = append(upd, a)
+			}
+		}
+		op := Op{K: "didupdate", Creator: creator, Sid: sid, KeyVer: 2 + r.Intn(50), Remove: rem, Update: upd, PastSeed: fmt.Sprintf("seed%d", r.Intn(4))}
+		if r.Chance(20) {
+			switch r.Intn(3) {
+			case 0:
+				op.Tamper = "docid"
+			case 1:
+				op.TsOffset = 895 + int64(r.Intn(12))
+			case 2:
+				if len(op.Update) > 0 {
+					op.Update = op.Update[1:]
+				}
+			}
+		}
+		return op
+	case 8:
+		// key-did payment address games
+		a := r.Intn(len(g.W.C.Accounts))
+		op := Op{K: "payaddr", Creator: a, Did: 1 + r.Intn(len(g.W.C.Accounts))}
+		if r.Chance(50) {
+			op.Did = a + 1
+		}
+		return op
+	default:
+		return Op{K: "payaddr", Creator: creator, OwnerRaw: []string{"garbage", "did:web:example.com", ""}[r.Intn(3)]}
+	}
+}
+
 func (g *Gen) tx() Op {
 	if g.Profile == "staking" && g.R.Chance(65) {
 		return g.stakingTx()
+	}
+	if g.Profile == "did" && g.R.Chance(80) {
+		return g.didTx()
+	}
+	if g.Profile == "lifecycle" {
+		return g.lifecycleTx()
+	}
+	if g.Profile == "reward" && g.R.Chance(70) {
+		r := g.R
+		n := g.Nodes[r.Intn(len(g.Nodes))]
+		switch r.Intn(6) {
+		case 0, 1:
+			return Op{K: "claim", Creator: n}
+		case 2:
+			return Op{K: "addv", Creator: n, Size: uint64(r.Intn(30_000_000))}
+		case 3:
+			return Op{K: "remv", Creator: n, Size: uint64(1_000_000 * (1 + r.Intn(20)))}
+		case 4:
+			return g.remvAll()
+		default:
+			return Op{K: "claim", Creator: 1 + r.Intn(11)}
+		}
 	}
 	li := g.live()
 	r := g.R
@@ -505,6 +642,91 @@ func (g *Gen) tx() Op {
 	default:
 		return g.smallTx(li)
 	}
+}
+
+// lifecycleTx drives few orders through their whole life: store, complete every shard, renew
+// (shorter / equal / longer), migrate + complete, update, claim, terminate, and lets the chain
+// walk through every scheduled height.
+func (g *Gen) lifecycleTx() Op {
+	li := g.live()
+	r := g.R
+	gw := g.Nodes[r.Intn(len(g.Nodes)-2)]
+	// 1. pending work first
+	for _, s := range li.shards {
+		if (s.Status == ordertypes.ShardWaiting || s.Status == ordertypes.ShardMigrating) && r.Chance(80) {
+			sp := g.acctIndex(s.Sp)
+			oid := s.OrderId
+			// a migrating shard is listed by the order it was appended to
+			for _, o := range li.orders {
+				for _, id := range o.Shards {
+					if id == s.Id {
+						oid = o.Id
+					}
+				}
+			}
+			return Op{K: "complete", Creator: sp, Provider: sp + 1, OrderId: oid, Size: s.Size_}
+		}
+	}
+	if len(li.metas) == 0 || (len(li.metas) < 3 && r.Chance(25)) {
+		owner := g.Owners[r.Intn(len(g.Owners))]
+		d := g.newDataId()
+		return Op{K: "store", Creator: gw, Provider: gw + 1, Signer: owner + 1, Owner: owner + 1, Duration: []uint64{3600, 7200, 10800, 5000}[r.Intn(4)],
+			Replica: int32(1 + r.Intn(3)), Timeout: int32(20 + r.Intn(300)), Alias: fmt.Sprintf("alias%d", g.dataSeq), DataId: d, CommitId: d,
+			Size: uint64(1 + r.Intn(3_000_000)), Operation: 1}
+	}
+	m := li.metas[r.Intn(len(li.metas))]
+	o := g.ownerIndexOfDid(m.Owner)
+	switch c := r.Intn(100); {
+	case c < 30:
+		return Op{K: "renew", Creator: gw, Provider: gw + 1, Signer: o + 1, Owner: o + 1, Duration: []uint64{3600, 3600, 7200, 14400, 4000}[r.Intn(5)], Timeout: 100, Data: []string{m.DataId}}
+	case c < 42:
+		sp := g.Nodes[r.Intn(len(g.Nodes))]
+		for _, s := range li.shards {
+			if s.Status == ordertypes.ShardCompleted && r.Chance(40) {
+				sp = g.acctIndex(s.Sp)
+				break
+			}
+		}
+		return Op{K: "migrate", Creator: sp, Provider: sp + 1, Data: []string{m.DataId}}
+	case c < 50:
+		return Op{K: "terminate", Creator: gw, Provider: gw + 1, Signer: o + 1, Owner: o + 1, DataId: m.DataId}
+	case c < 60:
+		nc := g.newDataId()
+		return Op{K: "store", Creator: gw, Provider: gw + 1, Signer: o + 1, Owner: o + 1, Duration: []uint64{3600, 7200}[r.Intn(2)], Replica: int32(1 + r.Intn(2)),
+			Timeout: int32(20 + r.Intn(200)), Alias: m.Alias, DataId: m.DataId, CommitId: m.Commit + "|" + nc, Size: uint64(1 + r.Intn(100000)), Operation: uint32(1 + r.Intn(2))}
+	case c < 80:
+		return Op{K: "claim", Creator: g.Nodes[r.Intn(len(g.Nodes))]}
+	case c < 88:
+		return g.remvAll()
+	case c < 92:
+		for _, ord := range li.orders {
+			if ord.Status != ordertypes.OrderCompleted {
+				cr := g.acctIndex(ord.Creator)
+				return Op{K: "cancel", Creator: cr, Provider: cr + 1, OrderId: ord.Id}
+			}
+		}
+		return Op{K: "claim", Creator: gw}
+	default:
+		return Op{K: "addv", Creator: g.Nodes[r.Intn(len(g.Nodes))], Size: uint64(r.Intn(5_000_000))}
+	}
+}
+
+// remvAll withdraws exactly the free capacity of a provider (boundary of the rounding rules).
+func (g *Gen) remvAll() Op {
+	n := g.Nodes[g.R.Intn(len(g.Nodes))]
+	ctx := g.W.C.Ctx()
+	if p, found := g.W.C.App.NodeKeeper.GetPledge(ctx, g.W.C.Accounts[n].Addr.String()); found && p.TotalStorage > p.UsedStorage {
+		free := uint64(p.TotalStorage - p.UsedStorage)
+		switch g.R.Intn(3) {
+		case 0:
+			return Op{K: "remv", Creator: n, Size: free}
+		case 1:
+			return Op{K: "remv", Creator: n, Size: free + 1}
+		default:
+			return Op{K: "remv", Creator: n, Size: free/2 + 1}
+		}
+	}
+	return Op{K: "remv", Creator: n, Size: 1_000_000}
 }
 
 func (g *Gen) smallTx(li liveInfo) Op {
